@@ -1397,6 +1397,8 @@ pub struct ConcParams {
 
 pub fn run_many(p: &ConcParams, shard: &mut Shard) {
     let t0 = Instant::now();
+    // own-step bound for every non-blocking call (a correct call passes < 200 + 4*streams sites)
+    api::STEP_LIMIT.store(200_000, SeqCst);
     let mut rng = Rng::new(p.seed);
     let mut i = 0;
     while i < p.runs {
@@ -1418,7 +1420,15 @@ pub fn run_many(p: &ConcParams, shard: &mut Shard) {
             shard.nontrivial.insert(out.sig);
             shard.stat(&format!("nontrivial:{}", fam.name()), 1);
         }
-        let vs = payload::take_violations();
+        let mut vs = payload::take_violations();
+        // A stream published at a lapped position (open finding, C10) removes back-pressure for
+        // the whole queue: everything else such a run reports is a consequence of that one defect.
+        const LAPPED: &str = "add-stream-start:shared-parent-advanced-during-call";
+        if fam == Family::AddStreamShared && vs.iter().any(|v| v.sig == LAPPED) {
+            let before = vs.len();
+            vs.retain(|v| v.sig == LAPPED);
+            shard.stat("suppressed_as_consequence_of_lapped_add_stream", (before - vs.len()) as u64);
+        }
         if !vs.is_empty() {
             let replay = J::obj()
                 .set("engine", J::s("conc"))
